@@ -65,6 +65,16 @@ CHECKS = {
        "not modelled in Coq (differential only). Known finding: function-like macro called twice per line.",
   technique="Rocq proof (simulation/refinement between two state machines, invariant by induction over directive sequences) + exhaustive small-scope differential",
   design="4/C08"),
+ "C17": dict(
+  text="Coq obligations (C17/Props.v) over the complete, alias-aware call inventory of the package, regenerated from the source on every run: "
+       "no call to eval/exec/compile/__import__/os.system/pickle/...; process and network calls only in the self-update (constant argv, behind "
+       "disable_autoupdate); writing sinks only the debug log (two maintenance scripts are proved unreferenced); no unknown dynamic callee; the "
+       "#if evaluator interprets only constants, boolean/arithmetic operators and comparisons. The *absence of effects* is runtime behaviour: "
+       "it is monitored with CPython audit hooks and directory snapshots on adversarial workspaces (testing, not proof).",
+  note="Partial by nature: a Gallina model cannot exhibit 'the interpreter ran attacker-chosen code'. Trusted: translator (fail closed), "
+       "audit events, third-party libraries. Method calls are classified by name.",
+  technique="Rocq-checked obligations over a call inventory regenerated by a translator + audit-hook monitoring",
+  design="4/C17"),
 }
 NOT_YET = "not yet built in this round; see DESIGN.md section 8 (build order)"
 
